@@ -342,4 +342,178 @@ Proof.
       rewrite map_app, map_app in E'. simpl in E'. rewrite Enm in E' |- *. fold D in E'. fold w in E'. rewrite E'.
       exists ls'. split; [reflexivity|]. rewrite <- app_assoc in HS'. exact HS'.
 Qed.
+
+(* ---------- one whole partition ---------- *)
+Definition rks (t : nat) : list nat := off g m t :: filter (fun k => negb (Nat.eqb k (off g m t))) (seq 0 r).
+Definition widx (t : nat) : list nat := map (wpos t) (rks t).
+
+Lemma seq_sorted : forall len a, StronglySorted lt (seq a len).
+Proof.
+  induction len as [|len IH]; intros a; simpl; constructor; [apply IH|].
+  apply Forall_forall. intros x Hx. apply in_seq in Hx. lia.
+Qed.
+Lemma filter_sorted (f : nat -> bool) l : StronglySorted lt l -> StronglySorted lt (filter f l).
+Proof.
+  induction 1 as [|a l Hs IH Ha]; simpl; [constructor|].
+  destruct (f a); [|exact IH]. constructor; [exact IH|].
+  apply Forall_forall. intros x Hx. apply filter_In in Hx. rewrite Forall_forall in Ha. apply Ha. tauto.
+Qed.
+Lemma filter_one_out c : forall len a, a <= c < a + len ->
+  length (filter (fun k => negb (Nat.eqb k c)) (seq a len)) = len - 1.
+Proof.
+  induction len as [|len IH]; intros a Hc; [lia|]. simpl.
+  destruct (Nat.eqb_spec a c) as [->|Hne]; simpl.
+  - assert (Hid : forall l, (forall x, In x l -> x <> c) -> filter (fun k => negb (Nat.eqb k c)) l = l).
+    { induction l as [|x l IHl]; intros Hl; simpl; [reflexivity|].
+      destruct (Nat.eqb_spec x c) as [->|_]; [exfalso; apply (Hl c); [left|]; reflexivity|].
+      simpl. f_equal. apply IHl. intros y Hy. apply Hl. right. exact Hy. }
+    rewrite Hid; [rewrite seq_length; lia|]. intros x Hx. apply in_seq in Hx. lia.
+  - rewrite IH by lia. lia.
+Qed.
+
+Lemma rks_spec t : let c := off g m t in
+  c < r /\ length (rks t) = r /\ NoDup (rks t) /\ (forall k, In k (rks t) <-> k < r).
+Proof.
+  cbv zeta. destruct (leader_rank t) as [_ [_ Hc]]. unfold rks. split; [exact Hc|]. split; [|split].
+  - simpl. rewrite filter_one_out by lia. lia.
+  - constructor.
+    + intros Hin. apply filter_In in Hin. destruct Hin as [_ Hf]. rewrite Nat.eqb_refl in Hf. discriminate.
+    + apply NoDup_filter. apply seq_NoDup.
+  - intros k. simpl. rewrite filter_In, in_seq, negb_true_iff, Nat.eqb_neq. split.
+    + intros [<-|[A _]]; lia.
+    + intros Hk. destruct (Nat.eq_dec (off g m t) k); [left; assumption|right; split; [lia|congruence]].
+Qed.
+
+Lemma fill_partition t ls : SI t [] ls ->
+  exists ls', fill_slots (N.of_nat t) [] 0 r ls [] = Ok (ls', map nm (widx t)) /\ SI t (widx t) ls'.
+Proof.
+  intros HS. destruct (rks_spec t) as [Hc [Hlen [Hnd Hmem]]]. destruct (leader_rank t) as [Hrk [Hlt _]].
+  destruct (pick_leader t ls HS) as [x [Ex [Hx Ix]]].
+  assert (Er : r = S (length (filter (fun k => negb (Nat.eqb k (off g m t))) (seq 0 r)))).
+  { unfold rks in Hlen. simpl in Hlen. lia. }
+  assert (Eld : ldr t = wpos t (off g m t)).
+  { unfold ProofsProbe.pos. rewrite wst_st. symmetry. apply Nat.mod_small. exact Hlt. }
+  assert (Enm : nl_name x = nm (wpos t (off g m t))).
+  { destruct HS as [_ Hall]. destruct (Hall x Hx) as [_ [B _]]. rewrite B, Ix, Eld. reflexivity. }
+  set (todo := filter (fun k => negb (Nat.eqb k (off g m t))) (seq 0 r)) in *.
+  cut (forall rr, rr = S (length todo) ->
+       exists ls', fill_slots (N.of_nat t) [] 0 rr ls [] = Ok (ls', map nm (widx t)) /\ SI t (widx t) ls');
+    [intros Hcut; apply Hcut; exact Er|]. intros rr ->.
+  rewrite fill_slots_S. cbv zeta. simpl nth. rewrite (has_empty t _ ls HS). simpl Nat.eqb. cbv iota.
+  rewrite Ex.
+  set (ls1 := upd_node (nl_name x) (fun l => add_rep (N.of_nat t) (add_lead (N.of_nat t) l)) ls).
+  assert (HS1 : SI t (map (wpos t) [off g m t]) ls1).
+  { simpl. unfold ls1. apply (SI_upd t [] [wpos t (off g m t)] ls x); try assumption.
+    - intros l. split; reflexivity.
+    - simpl. rewrite app_length. simpl. destruct HS as [_ Hall]. destruct (Hall x Hx) as [_ [_ [R _]]].
+      rewrite R, Ix, Eld. unfold memn. simpl. rewrite Nat.eqb_refl. simpl. lia.
+    - simpl. rewrite app_length. simpl. destruct HS as [_ Hall]. destruct (Hall x Hx) as [_ [_ [_ L]]].
+      rewrite L, Ix, Eld. simpl. rewrite Nat.eqb_refl. simpl. lia.
+    - intros i Hi. rewrite Ix, Eld in Hi. unfold memn. simpl.
+      assert (Nat.eqb i (wpos t (off g m t)) = false) as -> by (apply Nat.eqb_neq; exact Hi). split; reflexivity. }
+  destruct (fill_replicas t todo [off g m t] ls1) as [ls' [E' HS']].
+  - simpl. lia.
+  - apply filter_sorted. apply seq_sorted.
+  - intros k Hk. apply filter_In in Hk. destruct Hk as [A B]. apply in_seq in A.
+    rewrite negb_true_iff, Nat.eqb_neq in B. split; [nia|]. intros [E|[]]. congruence.
+  - intros k [<-|[]]. nia.
+  - intros k Hkn Hkd Hkt k' Hk'. apply filter_In in Hk'. destruct Hk' as [A' _]. apply in_seq in A'.
+    destruct (Nat.lt_ge_cases k r) as [L|L]; [|lia]. exfalso. apply Hkt. apply filter_In. split; [apply in_seq; lia|].
+    rewrite negb_true_iff, Nat.eqb_neq. intros E. apply Hkd. left. congruence.
+  - exact HS1.
+  - simpl length in E'. simpl map in E'. rewrite Enm. simpl app. rewrite E'.
+    exists ls'. split; [reflexivity|exact HS'].
+Qed.
+
+Lemma widx_mem t i : i < n -> memn i (widx t) = inwin n r t i.
+Proof.
+  intros Hi. destruct (rks_spec t) as [_ [_ [_ Hmem]]]. unfold inwin.
+  destruct (Nat.ltb_spec (rank t i) r) as [L|L].
+  - apply memn_In. unfold widx. apply in_map_iff. exists (rank t i). split; [apply A_pos_rank; exact Hi|apply Hmem; exact L].
+  - destruct (memn i (widx t)) eqn:E; [|reflexivity]. apply memn_In in E. unfold widx in E.
+    apply in_map_iff in E. destruct E as [k [E Hk]]. apply Hmem in Hk.
+    rewrite <- E in L. rewrite A_rank_pos in L by nia. lia.
+Qed.
+Lemma widx_hd t i : hdis i (widx t) = Nat.eqb i (ldr t).
+Proof.
+  destruct (leader_rank t) as [_ [Hlt _]]. unfold widx, rks. simpl. f_equal.
+  unfold ProofsProbe.pos. rewrite wst_st. apply Nat.mod_small. exact Hlt.
+Qed.
+
+Lemma SI_next t ls : SI t (widx t) ls -> SI (S t) [] ls.
+Proof.
+  intros [Hn Hall]. split; [exact Hn|]. intros l Hl. destruct (Hall l Hl) as [A [B [C1 C2]]].
+  split; [exact A|]. split; [exact B|]. simpl. rewrite !Nat.add_0_r. split.
+  - rewrite C1, A_rc_S, widx_mem by exact A. destruct (inwin n r t (idx l)); reflexivity.
+  - rewrite C2, lc_S, widx_hd. destruct (Nat.eq_dec (ldr t) (idx l)) as [E|E].
+    + rewrite <- E, Nat.eqb_refl. reflexivity.
+    + assert (Nat.eqb (idx l) (ldr t) = false) as -> by (apply Nat.eqb_neq; congruence). reflexivity.
+Qed.
+
+(* ---------- all partitions ---------- *)
+Definition fresh_parts (t0 p : nat) : list (list (list N)) := map (fun t => map nm (widx t)) (seq t0 p).
+
+Lemma fill_parts_fresh : forall p t ls, SI t [] ls ->
+  exists ls', fill_parts (N.of_nat t) p [] r ls = Ok (ls', fresh_parts t p) /\ SI (t + p) [] ls'.
+Proof.
+  induction p as [|p IH]; intros t ls HS.
+  - exists ls. simpl. rewrite Nat.add_0_r. split; [reflexivity|exact HS].
+  - rewrite fill_parts_S. cbv zeta.
+    assert (Hnth : nth (N.to_nat (N.of_nat t)) (@nil (list (list N))) [] = []) by (destruct (N.to_nat (N.of_nat t)); reflexivity).
+    rewrite Hnth.
+    destruct (fill_partition t ls HS) as [ls1 [E1 HS1]]. rewrite E1.
+    apply SI_next in HS1.
+    replace (N.of_nat t + 1)%N with (N.of_nat (S t)) by lia.
+    destruct (IH (S t) ls1 HS1) as [ls' [E' HS']]. rewrite E'.
+    exists ls'. split; [reflexivity|]. replace (t + S p) with (S t + p) by lia. exact HS'.
+Qed.
+
+Lemma SI_balanced t ls : SI t [] ls -> balanced ls = true.
+Proof.
+  intros HS. pose proof HS as [Hn Hall].
+  assert (Hne : ls <> []).
+  { intros ->. simpl in Hn. pose proof n_pos'. destruct ring; [simpl in ring_len; lia|discriminate]. }
+  assert (Hb : forall l, In l ls ->
+            t / n <= length (nl_lead l) <= t / n + 1 /\ (t * r) / n <= length (nl_rep l) <= (t * r) / n + 1).
+  { intros l Hl. destruct (Hall l Hl) as [A [_ [C1 C2]]]. simpl in C1, C2. rewrite Nat.add_0_r in C1, C2.
+    rewrite C1, C2, A_lc_split by exact A. rewrite (rc_formula n r n_pos' r_le t (idx l) A).
+    pose proof (A_led_le1 t (idx l)). destruct (Nat.ltb (idx l) (wst n r t)); lia. }
+  unfold balanced.
+  destruct (min_by lead_ltb ls) as [ln|] eqn:E1; [|apply min_by_none in E1; contradiction].
+  destruct (max_by lead_ltb ls) as [lx|] eqn:E2; [|apply max_by_none in E2; contradiction].
+  destruct (min_by rep_ltb ls) as [rn|] eqn:E3; [|apply min_by_none in E3; contradiction].
+  destruct (max_by rep_ltb ls) as [rx|] eqn:E4; [|apply max_by_none in E4; contradiction].
+  apply min_by_in in E1, E3. apply max_by_in in E2, E4.
+  pose proof (Hb ln E1). pose proof (Hb lx E2). pose proof (Hb rn E3). pose proof (Hb rx E4).
+  apply andb_true_intro. split; apply Nat.leb_le; lia.
+Qed.
+
+(* the fresh V2 layout, for every size: partition t gets the names of the window positions, leader first;
+   the load maps are balanced, so moveIfUnbalanced moves nothing *)
+Theorem fill_v2_fresh_general p :
+  fill_v2 h p r [] ring = Ok (fresh_parts 0 p).
+Proof.
+  destruct (fill_parts_fresh p 0 _ init_SI) as [ls [E HS]].
+  apply (fill_v2_balanced h p r [] ring ls).
+  - unfold v2_fill_phase. cbn [map]. simpl add_olds. rewrite ring_len. exact E.
+  - eapply SI_balanced. exact HS.
+Qed.
+
+(* data-centre classes: ring slot s belongs to class s mod d, d divides n, r <= d *)
+Theorem fresh_part_spread t d (cls : list N -> nat) :
+  d <> 0 -> Nat.divide d n -> r <= d ->
+  (forall s, s < n -> cls (nth s ring []) = s mod d) ->
+  NoDup (map cls (map nm (widx t))).
+Proof.
+  intros Hd Hdiv Hrd Hcls. pose proof n_pos' as Hn. pose proof H_lt as HH.
+  destruct (rks_spec t) as [_ [_ [Hnd Hmem]]]. unfold widx. rewrite !map_map.
+  apply NoDup_map_in; [|exact Hnd].
+  assert (Hkey : forall k, k < n -> cls (nm (wpos t k)) = (wst n r t + (n - H) + k) mod d).
+  { intros k Hk. unfold nm. rewrite Hcls by apply posn_lt. unfold posn, crank, ProofsProbe.pos.
+    rewrite mod_mod_divides by (try assumption; lia).
+    rewrite <- Nat.add_sub_assoc by lia. rewrite Nat.add_mod by exact Hd.
+    rewrite mod_mod_divides by (try assumption; lia). rewrite <- Nat.add_mod by exact Hd. f_equal. lia. }
+  intros k k' Hk Hk' E. apply Hmem in Hk, Hk'. rewrite !Hkey in E by nia.
+  eapply mod_add_inj; [| |exact E]; lia.
+Qed.
 End FreshGen.
